@@ -28,6 +28,9 @@ enum Expect {
     /// object / array with exactly this JSON content
     Json(Value),
     Function,
+    /// made by a script (symbol keys, accessors, proxies, holes, class instances ...): the model
+    /// does not know its content; only the safety oracles apply
+    Opaque,
 }
 
 struct Handle {
@@ -60,7 +63,7 @@ fn same_json(a: &Value, b: &Value) -> bool {
 /// JSON a conforming serializer produces for a value with this expectation (None = undefined)
 fn expect_json(e: &Expect) -> Option<Value> {
     match e {
-        Expect::Undefined | Expect::Function => None,
+        Expect::Undefined | Expect::Function | Expect::Opaque => None,
         Expect::Null => Some(Value::Null),
         Expect::Bool(b) => Some(Value::Bool(*b)),
         Expect::Num(n) => Some(serde_json::Number::from_f64(*n).map(Value::Number).unwrap_or(Value::Null)),
@@ -78,6 +81,42 @@ fn json_to_expect(v: &Value) -> Expect {
         other => Expect::Json(other.clone()),
     }
 }
+
+/// values only a script can make, handed to the host as completion values
+const SCRIPT_VALUES: &[&str] = &[
+    "({ a: 1, [Symbol('s')]: 2, b: 3 })",
+    "({ [Symbol.iterator]: function(){ return { next(){ return { done: true }; } }; } })",
+    "({ [Symbol('only')]: 1 })",
+    "(function(){ var o = {}; o[Symbol('x')] = 1; o[Symbol.for('y')] = 2; o.k = 3; return o; })()",
+    "({ get g(){ return 1; }, set s(v){ }, plain: 2 })",
+    "(function(){ var o = {}; Object.defineProperty(o, 'hidden', { value: 1, enumerable: false }); o.seen = 2; return o; })()",
+    "[1, , 3, , 5]",
+    "(function(){ var a = [1, 2, 3]; a.extra = 'x'; a[Symbol('s')] = 1; return a; })()",
+    "new Proxy({ a: 1 }, {})",
+    "new Proxy({}, { ownKeys(){ return ['p', 'q']; }, get(t, k){ return 1; }, has(){ return true; }, getOwnPropertyDescriptor(){ return { value: 1, enumerable: true, configurable: true }; } })",
+    "(function named(a, b){ return a + b; })",
+    "(class K { static s = 1; m(){ return 2; } })",
+    "new (class P { constructor(){ this.x = 1; this[Symbol('y')] = 2; } })()",
+    "new Map([[1, { a: 1 }], ['k', [2]]])",
+    "new Set([1, 'a', { b: 2 }])",
+    "new Date(0)",
+    "/re(g)ex/gi",
+    "Object.freeze({ f: 1, [Symbol('z')]: 2 })",
+    "Object.create(null)",
+    "Object.create({ inherited: 1 })",
+    "(function(){ var o = {}; for (var i = 0; i < 300; i++) { o['k' + i] = i; } o[Symbol('s')] = 1; return o; })()",
+    "Symbol('sym')",
+    "Promise.resolve(1)",
+    "(function*(){ yield 1; })()",
+    "new Error('e')",
+    "JSON",
+    "Math",
+    "globalThis",
+    "(function(){ return arguments; })(1, 2)",
+    "new String('boxed')",
+    "Object(Symbol('boxed'))",
+    "(function(){ enumLike: { var E = {}; E[E['A'] = 0] = 'A'; return E; } })()",
+];
 
 const KEYS: &[&str] = &["a", "b", "key", "0", "7", "x y", "\u{e9}", "nested", "__k"];
 const STRINGS: &[&str] = &["", "a", "hello world", "\u{e9}\u{65e5}\u{1F600}", "quote\"back\\slash", "line\nbreak\ttab", "0", "null"];
@@ -221,6 +260,10 @@ impl Driver {
                     }
                 }
                 Expect::Function => !tsrun_is_function(ptr),
+                Expect::Opaque => {
+                    self.inspect_opaque(ptr);
+                    false
+                }
                 Expect::Json(v) => {
                     if !tsrun_is_object(ptr) || tsrun_is_array(ptr) != v.is_array() {
                         true
@@ -249,6 +292,71 @@ impl Driver {
             if bad {
                 let got = repr(self.ctx, ptr);
                 self.problem("content", format!("{}: a live handle no longer holds what the host put there: expected {:?}, reads back {}", why, expect, truncate(&got, 160)));
+            }
+        }
+    }
+
+    /// every read-only entry point on a value whose content the model does not know: the
+    /// sanitizer / Miri / string-validity oracles decide
+    fn inspect_opaque(&mut self, ptr: *mut TsRunValue) {
+        self.op("inspect");
+        unsafe {
+            let _ = tsrun_typeof(ptr);
+            let _ = (tsrun_is_object(ptr), tsrun_is_array(ptr), tsrun_is_function(ptr), tsrun_is_string(ptr), tsrun_is_number(ptr));
+            let _ = tsrun_get_number(ptr);
+            let _ = tsrun_get_bool(ptr);
+            if let Err(e) = read_cstr(tsrun_get_string(ptr)) {
+                self.problem("bad-string", format!("tsrun_get_string: {}", e));
+            }
+            let _ = tsrun_get_string_len(ptr);
+            let n = tsrun_array_len(ptr);
+            for i in [0usize, 1, n.saturating_sub(1), n, n + 1] {
+                let r = tsrun_array_get(self.ctx, ptr, i);
+                if !r.value.is_null() {
+                    tsrun_value_free(r.value);
+                }
+            }
+            let mut count: usize = 0;
+            let ks = tsrun_keys(self.ctx, ptr, &mut count);
+            if !ks.is_null() {
+                // walk exactly `count` entries, as the header prescribes
+                for i in 0..count {
+                    match read_cstr(*ks.add(i)) {
+                        Ok(Some(k)) => {
+                            let c = cstr(&k);
+                            let _ = tsrun_has(self.ctx, ptr, c.as_ptr());
+                            let r = tsrun_get(self.ctx, ptr, c.as_ptr());
+                            if !r.value.is_null() {
+                                tsrun_value_free(r.value);
+                            }
+                        }
+                        Ok(None) => self.problem("bad-string", "tsrun_keys returned a NULL entry".into()),
+                        Err(e) => self.problem("bad-string", format!("tsrun_keys: {}", e)),
+                    }
+                }
+                tsrun_free_strings(ks, count);
+            } else if count != 0 {
+                self.problem("content", format!("tsrun_keys returned NULL with count {}", count));
+            }
+            let s = tsrun_json_stringify(self.ctx, ptr);
+            if !s.is_null() {
+                if let Err(e) = read_cstr(s) {
+                    self.problem("bad-string", format!("tsrun_json_stringify: {}", e));
+                }
+                tsrun_free_string(s);
+            }
+            for key in ["a", "0", "length", "constructor", "toString", "missing"] {
+                let c = cstr(key);
+                let _ = tsrun_has(self.ctx, ptr, c.as_ptr());
+                let r = tsrun_get(self.ctx, ptr, c.as_ptr());
+                if !r.value.is_null() {
+                    tsrun_value_free(r.value);
+                }
+            }
+            let m = cstr("toString");
+            let r = tsrun_call_method(self.ctx, ptr, m.as_ptr(), std::ptr::null_mut(), 0);
+            if !r.value.is_null() {
+                tsrun_value_free(r.value);
             }
         }
     }
@@ -311,7 +419,14 @@ impl Driver {
 
     /// one random operation
     fn step(&mut self) {
-        let k = self.rng.below(if self.scripts { 34 } else { 27 });
+        let k = if self.scripts {
+            self.rng.below(37)
+        } else if self.rng.chance(1, 12) {
+            // Miri: script execution is expensive there, only the script-made values are drawn
+            34
+        } else {
+            self.rng.below(27)
+        };
         unsafe {
             match k {
                 0 => {
@@ -363,7 +478,7 @@ impl Driver {
                 8 | 9 => {
                     // set obj[key] = value
                     let Some(o) = self.pick_where(|h| !h.frozen && matches!(&h.expect, Expect::Json(Value::Object(_)))) else { return };
-                    let Some(v) = self.pick() else { return };
+                    let Some(v) = self.pick_where(|h| !matches!(h.expect, Expect::Opaque)) else { return };
                     if v == o {
                         return;
                     }
@@ -474,7 +589,7 @@ impl Driver {
                 14 | 15 => {
                     // array push
                     let Some(a) = self.pick_where(|h| !h.frozen && matches!(&h.expect, Expect::Json(Value::Array(_)))) else { return };
-                    let Some(v) = self.pick() else { return };
+                    let Some(v) = self.pick_where(|h| !matches!(h.expect, Expect::Opaque)) else { return };
                     if v == a {
                         return;
                     }
@@ -560,7 +675,7 @@ impl Driver {
                 }
                 23 => {
                     // set_global / get_global
-                    let Some(i) = self.pick() else { return };
+                    let Some(i) = self.pick_where(|h| !matches!(h.expect, Expect::Opaque)) else { return };
                     let name = format!("g{}", self.rng.below(4));
                     self.op("set_global");
                     let c = cstr(&name);
@@ -608,6 +723,7 @@ impl Driver {
                         Expect::Num(_) => t == TsRunType::Number,
                         Expect::Str(_) => t == TsRunType::String,
                         Expect::Json(_) | Expect::Function => t == TsRunType::Object,
+                        Expect::Opaque => true,
                     };
                     if !ok {
                         self.problem("content", format!("tsrun_typeof = {} for a handle holding {:?}", t as i32, self.handles[i].expect));
@@ -681,6 +797,22 @@ impl Driver {
                 }
                 30 | 31 => self.order_round_trip(),
                 32 => self.module_round_trip(),
+                34..=36 => {
+                    // a value only a script can make, inspected through every read-only entry point
+                    let src = *self.rng.pick(SCRIPT_VALUES);
+                    match self.run_script(src, None) {
+                        Ok((_, v)) => {
+                            if !v.is_null() {
+                                self.inspect_opaque(v);
+                                self.add(v, Expect::Opaque, true);
+                            }
+                        }
+                        Err(e) => {
+                            // a palette entry this tree cannot evaluate is not a C17 matter
+                            let _ = e;
+                        }
+                    }
+                }
                 _ => {
                     // call a script function through the API with host values
                     match self.run_script("(function(a, b){ var g = []; for (var i = 0; i < 60; i++) { g.push({}); } return JSON.stringify([a, b]); })", None) {
@@ -688,7 +820,7 @@ impl Driver {
                             if f.is_null() {
                                 return;
                             }
-                            let (Some(i), Some(j)) = (self.pick(), self.pick()) else {
+                            let (Some(i), Some(j)) = (self.pick_where(|h| !matches!(h.expect, Expect::Opaque)), self.pick_where(|h| !matches!(h.expect, Expect::Opaque))) else {
                                 tsrun_value_free(f);
                                 return;
                             };
